@@ -166,6 +166,8 @@ class Interp:
                 return True
             self.path.assume(z3.Implies(v.none_var(), z3.Not(v.truth_var())))
             return v.truth_var()
+        if isinstance(v, AbsObj) and "__truth__" in v.attrs:
+            return zbool(v.attrs["__truth__"])
         if isinstance(v, (Obj, WeakRef, BoundMethod, AbsObj)):
             return True
         if isinstance(v, (type, types.FunctionType, types.ModuleType, enum.Enum, uuid.UUID)):
@@ -1472,6 +1474,16 @@ class Interp:
     def ex_Starred(self, node, frame):
         raise Unsupported("starred expression")
 
+    def ex_Yield(self, node, frame):
+        """`yield` inside a @contextmanager generator: the with-body runs here; it either
+        completes (execution continues) or raises (the exception is thrown in at the yield)."""
+        val = self.ev(node.value, frame) if node.value is not None else None
+        self.event("yield", value=val)
+        if self.path.choose(2, f"with-body-outcome@{self.cur_line}") == 1:
+            self.event("with-body-raised")
+            raise RaiseSig(WithBodyError, self.where())
+        return None
+
     def ex_NamedExpr(self, node, frame):
         v = self.ev(node.value, frame)
         self.assign(node.target, v, frame)
@@ -1502,6 +1514,10 @@ class Interp:
         from . import models_py
 
         return models_py.delitem(self, base, idx)
+
+
+class WithBodyError(Exception):
+    """Stands for any exception escaping the body of a with-block."""
 
 
 class EngineCallable:
